@@ -132,15 +132,19 @@ type explorer struct {
 }
 
 type exState struct {
-	env    map[ssa.Value]symVal
-	onPath map[*ssa.BasicBlock]bool
-	mem    map[string]symVal // store-to-load forwarding: location -> last stored value on this path
-	dead   map[string]bool   // locations written on this path whose value is no longer known (atoms do not apply)
-	po     pathOutcome
+	env     map[ssa.Value]symVal
+	onPath  map[*ssa.BasicBlock]bool
+	mem     map[string]symVal  // store-to-load forwarding: location -> last stored value on this path
+	dead    map[string]bool    // locations written on this path whose value is no longer known (atoms do not apply)
+	decided map[ssa.Value]bool // opaque conditions already decided on this path (the same SSA value is the same runtime value)
+	po      pathOutcome
 }
 
 func (st *exState) clone() *exState {
-	n := &exState{env: make(map[ssa.Value]symVal, len(st.env)), onPath: make(map[*ssa.BasicBlock]bool, len(st.onPath)), mem: map[string]symVal{}, dead: map[string]bool{}}
+	n := &exState{env: make(map[ssa.Value]symVal, len(st.env)), onPath: make(map[*ssa.BasicBlock]bool, len(st.onPath)), mem: map[string]symVal{}, dead: map[string]bool{}, decided: map[ssa.Value]bool{}}
+	for k, v := range st.decided {
+		n.decided[k] = v
+	}
 	for k, v := range st.env {
 		n.env[k] = v
 	}
@@ -165,7 +169,7 @@ func (e *explorer) explore(from *ssa.BasicBlock) []*pathOutcome {
 	if from == nil {
 		from = e.f.Blocks[0]
 	}
-	st := &exState{env: map[ssa.Value]symVal{}, onPath: map[*ssa.BasicBlock]bool{}, mem: map[string]symVal{}, dead: map[string]bool{}}
+	st := &exState{env: map[ssa.Value]symVal{}, onPath: map[*ssa.BasicBlock]bool{}, mem: map[string]symVal{}, dead: map[string]bool{}, decided: map[ssa.Value]bool{}}
 	e.walk(st, from, nil)
 	return e.out
 }
@@ -250,9 +254,17 @@ func (e *explorer) walk(st *exState, b, pred *ssa.BasicBlock) {
 					} else {
 						next = b.Succs[1]
 					}
+				} else if d, ok := st.decided[in.Cond]; ok {
+					if d {
+						next = b.Succs[0]
+					} else {
+						next = b.Succs[1]
+					}
 				} else {
 					// fork
+					st.decided[in.Cond] = false
 					st2 := st.clone()
+					st.decided[in.Cond] = true
 					st2.po.conds = append(st2.po.conds, condTaken{cv.expr, false, in.Cond})
 					e.walk(st2, b.Succs[1], b)
 					st.po.conds = append(st.po.conds, condTaken{cv.expr, true, in.Cond})
